@@ -119,6 +119,7 @@ type btPlan struct {
 	FailGetAll  bool  `json:"failGetAll,omitempty"` // … and every later one
 	FailIterAt  int64 `json:"failIterAt,omitempty"` // this NewIterator fails
 	FailIterAll bool  `json:"failIterAll,omitempty"`
+	MaxSecs     int   `json:"maxSecs,omitempty"` // give up after this many seconds even if the store is active (0 = 120)
 }
 
 // hungOnce: a migration run did not return; its goroutines may still spin, so no further runs
@@ -196,7 +197,11 @@ func runMigrator(m migration.Migration, state []byte, d *memory.Database, p btPl
 		out.errText = "skipped: an earlier run of the migration did not return"
 		return out
 	}
-	finished := s.runWatched(deadline, 120*time.Second, func() {
+	maxWait := 120 * time.Second
+	if p.MaxSecs > 0 {
+		maxWait = time.Duration(p.MaxSecs) * time.Second
+	}
+	finished := s.runWatched(deadline, maxWait, func() {
 		e, panicked, _ := lib.Try(func() error {
 			var e2 error
 			if e0 := m.Before(state); e0 != nil {
@@ -249,7 +254,7 @@ type btModel struct {
 func (m *btModel) ask(line string) string {
 	a, err := m.drv.Ask(line)
 	if err != nil {
-		m.res.Note("driver: %v", err)
+		m.res.Fatalf("driver: %v", err)
 		return "driver-error"
 	}
 	return a
@@ -383,6 +388,13 @@ func checkFinalFrom(res *lib.Result, c, imageSpec chainSpec, final *memory.Datab
 		}
 		ok = false
 		switch {
+		case got.Err == "notfound" && len(exp.Txs) == 0 && !outsideEveryPass(imageSpec, b):
+			// the completing run's pass covered this block: it must have stored the empty entry
+			res.Hit("oracle:blocktx-empty-block-inside-pass-unreadable")
+			res.Violate(lib.Violation{Sig: "blocktx-empty-block-inside-pass-unreadable",
+				What: fmt.Sprintf("block %d has no transactions and lies inside the pass of the completing run (image %s): "+
+					"the migration must have written its empty entry, the accessors return key not found", b, imageSpec.Layout),
+				Replay: btReplay{imageSpec, "build spec, run blocktransactions.Migrator.Migrate once, read block", b}})
 		case got.Err == "notfound" && len(exp.Txs) == 0:
 			res.Hit("oracle:blocktx-empty-block-unreadable-after-migration")
 			res.Violate(lib.Violation{Sig: "blocktx-empty-block-unreadable-after-migration",
@@ -483,4 +495,48 @@ func (m *btModel) ingestErrorTransition(c chainSpec, pre, post *memory.Database,
 	if pk > 0 {
 		m.res.Hit("bt-ingest-error:partial-batch-written")
 	}
+}
+
+// outsideEveryPass: in the run that completed the migration from image spec, block b (which has no
+// old entries) lies outside the pass — below the 10-aligned first block with old entries, or there
+// were no old entries at all. Only such blocks are what the known finding
+// blocktx-empty-block-unreadable-after-migration is about.
+func outsideEveryPass(image chainSpec, b uint64) bool {
+	if int(b) >= len(image.Layout) || image.Layout[b] != '-' {
+		return false
+	}
+	first := strings.IndexAny(image.Layout, "ob")
+	if first < 0 {
+		return true
+	}
+	return int(b) < first-first%btBatch
+}
+
+// sameDumpModuloEmpty compares two databases key by key, leaving out the BlockTransactions entries
+// of blocks without transactions (whether an empty block has its entry depends on the
+// interruption history as long as the known back-fill finding is open; every OTHER key must agree).
+func sameDumpModuloEmpty(c chainSpec, a, b map[string]string) (bool, string) {
+	ignore := map[string]bool{}
+	tmp := memory.New()
+	for blk, n := range c.Counts {
+		if n == 0 {
+			e, _ := core.NewBlockTransactions(nil, nil)
+			_ = core.BlockTransactionsBucket.Put(tmp, uint64(blk), &e)
+		}
+	}
+	for k := range dump(tmp) {
+		ignore[k] = true
+	}
+	fa, fb := map[string]string{}, map[string]string{}
+	for k, v := range a {
+		if !ignore[k] {
+			fa[k] = v
+		}
+	}
+	for k, v := range b {
+		if !ignore[k] {
+			fb[k] = v
+		}
+	}
+	return sameDump(fa, fb)
 }
